@@ -152,6 +152,12 @@ pub enum Ev {
     SetReadOnly { r: u8, peer: u8, ro: bool },
     /// property-specific probe point (e.g. "check historical reads now"); argument is a selector
     Probe { r: u8, arg: u32 },
+    // byzantine seam faults
+    DeliverCorrupt { from: u8, to: u8, pick: u32, m: crate::mutate::Mutation },
+    RecvCorrupt { from: u8, to: u8, m: crate::mutate::Mutation },
+    CrashCorrupt { r: u8, m: crate::mutate::Mutation, opts: LoadOpts },
+    /// decode mutated encodings of ids / cursors / hashes / actor ids / sync states / bloom filters, as bytes and as strings
+    IdFuzz { r: u8, what: u8, sel: u32, m: crate::mutate::Mutation },
 }
 
 impl Ev {
@@ -197,6 +203,10 @@ impl Ev {
             Ev::Disconnect { .. } => "disconnect",
             Ev::SetReadOnly { .. } => "set_read_only",
             Ev::Probe { .. } => "probe",
+            Ev::DeliverCorrupt { .. } => "deliver_corrupt",
+            Ev::RecvCorrupt { .. } => "recv_corrupt",
+            Ev::CrashCorrupt { .. } => "crash_corrupt",
+            Ev::IdFuzz { .. } => "id_fuzz",
         }
     }
     pub fn replica(&self) -> u8 {
@@ -216,8 +226,11 @@ impl Ev {
             | Ev::Fsync { r }
             | Ev::Crash { r, .. }
             | Ev::SetReadOnly { r, .. }
+            | Ev::CrashCorrupt { r, .. }
+            | Ev::IdFuzz { r, .. }
             | Ev::Probe { r, .. } => *r,
             Ev::Send { to, .. } | Ev::Deliver { to, .. } | Ev::DupPkt { to, .. } | Ev::DropPkt { to, .. } => *to,
+            Ev::DeliverCorrupt { to, .. } | Ev::RecvCorrupt { to, .. } => *to,
             Ev::Merge { to, .. } => *to,
             Ev::Connect { a, .. } | Ev::Disconnect { a, .. } => *a,
             Ev::Gen { from, .. } => *from,
